@@ -44,13 +44,12 @@ theorem C02_schema_pass_repaired (O : Oracles) (n : Nat) (path : String) (doc : 
     (validateF Cfg.repaired {} O swaggerDefs n swaggerRoot path doc).panicked = false ∧
     (validateF Cfg.repaired {} O swaggerDefs n swaggerRoot path doc).errors.isEmpty
       = validF O swaggerDefs n swaggerRoot doc :=
-  validateF_agree Cfg.repaired O rfl rfl (fun h => by cases h) swaggerDefs swagger_defs_wf_repaired n
+  validateF_agree Cfg.repaired O rfl (fun h => by cases h) swaggerDefs swagger_defs_wf_repaired n
     swaggerRoot swagger_root_wf_repaired path doc (C01.adm_repaired doc)
 
-/-- the code as it is, minus the two open deviations whose no-trigger condition is a condition on
-    the *schema* that the Swagger schema does not meet (`format: uri|email` on strings) or that is
-    not yet threaded through the induction (IMPORTANT! messages) -/
-def asIsC02 : Cfg := { Cfg.asIs with leaksImportant := false, formatBypassesType := false }
+/-- the code as it is, minus the one open deviation whose no-trigger condition is a condition on
+    the *schema* that the Swagger schema does not meet (`format: uri|email` on strings) -/
+def asIsC02 : Cfg := { Cfg.asIs with formatBypassesType := false }
 
 theorem swagger_table_wf_asIs : swaggerTable.all (fun p => wf asIsC02 known p.2) = true := by decide
 theorem swagger_root_wf_asIs : wf asIsC02 known swaggerRoot = true := by decide
@@ -68,7 +67,7 @@ theorem C02_schema_pass_asIs_partial (O : Oracles) (hO : OExact O) (n : Nat) (pa
     (validateF asIsC02 {} O swaggerDefs n swaggerRoot path doc).panicked = false ∧
     (validateF asIsC02 {} O swaggerDefs n swaggerRoot path doc).errors.isEmpty
       = validF O swaggerDefs n swaggerRoot doc :=
-  validateF_agree asIsC02 O rfl rfl (fun _ => hO) swaggerDefs swagger_defs_wf_asIs n
+  validateF_agree asIsC02 O rfl (fun _ => hO) swaggerDefs swagger_defs_wf_asIs n
     swaggerRoot swagger_root_wf_asIs path doc hdoc
 
 /-- **The pipeline never loses an error of the schema pass**: whatever the later stages report and
@@ -106,7 +105,8 @@ theorem C02_accepted_is_schema_valid (cont : Bool) (s : Stages) (O : Oracles) (n
   rw [hpass] at h
   rw [← (C02_schema_pass_repaired O n "" doc).2, h]; rfl
 
-/-- … and for the code as it is, on documents without `null` and without `$schema`/`id` members -/
+/-- … and for the code as it is (IMPORTANT!-message leak included), on documents without `null`, without `$schema`/`id`
+    members and without a `headers` member holding objects with a string `$ref` (Swagger 2.0 headers cannot be references) -/
 theorem C02_accepted_is_schema_valid_partial (cont : Bool) (s : Stages) (O : Oracles) (hO : OExact O) (n : Nat) (doc : JVal)
     (hdoc : adm asIsC02 doc = true)
     (hpass : s.schemaPass = validateF asIsC02 {} O swaggerDefs n swaggerRoot "" doc)
